@@ -15,7 +15,7 @@ Lemma k_open_cx_tab s p s' res :
   | Err _ => k_tab s' = k_tab s
   end.
 Proof.
-  unfold k_open_cx. destruct (k_resolve (k_fs s) p _) as [f' [k|e]].
+  unfold k_open_cx. destruct (k_resolve (k_fs s) p false _) as [f' [k|e]].
   - cbn [new_ofd]. intros Ha. destruct res as [c|e].
     + apply alloc_fd_ok in Ha. cbn in Ha. destruct Ha as [-> [-> [Hi [-> _]]]]. auto.
     + apply alloc_fd_err in Ha. cbn in Ha. destruct Ha as [-> [[-> _] _]]. auto.
